@@ -58,6 +58,14 @@ class LabObj(AutoParameterObject):
         return ['b']
 
 
+class LabObjSub(LabObj):
+    """subclass that extends the constructor (its own arguments must be part of its representation)"""
+
+    def __init__(self, a, limit=10, b=3, verbose=False):
+        super().__init__(a, b, verbose)
+        self.limit = limit
+
+
 class LabObjSet(AutoParameterObject):
     """parameter object holding a set (the library's persistence helpers explicitly handle sets)"""
 
@@ -109,7 +117,9 @@ def pcanon(v):
         d = {'a': pcanon(v.a)}
         if v._b != 3:
             d['b'] = pcanon(v._b)
-        return ['obj', 'LabObj', d]
+        if isinstance(v, LabObjSub):
+            d['limit'] = pcanon(v.limit)
+        return ['obj', type(v).__name__, d]
     if isinstance(v, LabObjPlain):
         return ['obj', 'LabObjPlain', {'x': pcanon(v.x)}]
     if isinstance(v, LabObjSet):
@@ -126,7 +136,10 @@ def pcanon(v):
 def received_canon(v):
     """typed canonical form of what run really received (substituted text), for C09/C11"""
     if isinstance(v, (LabObj,)):
-        return ['obj', 'LabObj', {'a': received_canon(v.a), 'b': received_canon(v._b), 'verbose': received_canon(v.verbose)}]
+        d = {'a': received_canon(v.a), 'b': received_canon(v._b), 'verbose': received_canon(v.verbose)}
+        if isinstance(v, LabObjSub):
+            d['limit'] = received_canon(v.limit)
+        return ['obj', type(v).__name__, d]
     if isinstance(v, LabObjPlain):
         return ['obj', 'LabObjPlain', {'x': received_canon(v.x)}]
     if isinstance(v, LabObjSet):
